@@ -315,4 +315,57 @@ theorem convex_filled_flood_exact_set (g : Grid) (v : Pt) (r : List Pt) (h : Str
       ∀ cell, cell ∈ out ↔ FilledMeets g (v :: r) cell :=
   filled_flood_exact g v r (convex_parityConst _ h) pick hp1 hp2 fuel hf
 
+/-! ## D. non-vacuity on concrete rationals -/
+
+/-- a strictly convex pentagon with rational vertices, none of them a grid corner; one vertex on a grid
+    line -/
+def pentagon : List Pt := [(1/2, 1/4), (5/2, 1/4), (7/2, 7/4), (2, 13/4), (0, 7/4)]
+
+example : StrictConvexCCW pentagon := by decide +kernel
+
+/-- the bounding block has 5 × 4 = 20 cells -/
+example : (ringBlock unitGrid pentagon).length = 20 := by decide +kernel
+
+/-- the model's flood on the unit grid, two schedules: the 15 touched cells -/
+example : flood nbrs8 (filledTouchesC unitGrid pentagon) popFirst 21 (cellOf unitGrid (1/2) (1/4))
+    = some [(2, 0), (3, 0), (3, 1), (3, 2), (2, 1), (2, 2), (2, 3), (1, 2), (1, 3), (0, 2), (-1, 1), (1, 0),
+        (1, 1), (0, 1), (0, 0)] := by decide +kernel
+example : (flood nbrs8 (filledTouchesC unitGrid pentagon) popLast 21 (cellOf unitGrid (1/2) (1/4))).map
+    (fun v => (v.length, (ringBlock unitGrid pentagon).filter (fun c => decide (c ∈ v)))) =
+    some (15, [(-1, 1), (0, 0), (0, 1), (0, 2), (1, 0), (1, 1), (1, 2), (1, 3), (2, 0), (2, 1), (2, 2), (2, 3),
+      (3, 0), (3, 1), (3, 2)]) := by decide +kernel
+
+/-- cell (1, 1) is touched without meeting the boundary (an interior cell); the block cells (3, 3) and
+    (-1, 0) are not touched -/
+example : polyTouches unitGrid (closeUp pentagon) (1, 1) = false ∧
+    filledTouchesC unitGrid pentagon (1, 1) = true ∧ filledTouchesC unitGrid pentagon (3, 3) = false ∧
+    filledTouchesC unitGrid pentagon (-1, 0) = false := by
+  refine ⟨by decide +kernel, by decide +kernel, by decide +kernel, by decide +kernel⟩
+
+/-- the hypotheses of `convex_filled_flood_exact` are satisfiable, with the fuel bound computed: 20 + 1 -/
+example : ∃ out, flood nbrs8 (filledTouchesC unitGrid pentagon) popLast 21 (cellOf unitGrid (1/2) (1/4)) = some out ∧
+    ∀ cell, cell ∈ out ↔ ∃ x y : Rat, InBox unitGrid cell x y ∧
+      ∀ e ∈ ringEdges pentagon, 0 ≤ pcross e ((x, y) : Pt) :=
+  convex_filled_flood_exact unitGrid (1/2, 1/4) _ (by decide +kernel) popLast popLast_sound popLast_total 21
+    (by decide +kernel)
+
+/-- theorem + computed value: the 15 listed cells are exactly the cells whose closed box contains a point
+    of the closed pentagon -/
+example : ∀ cell, cell ∈ ([(2, 0), (3, 0), (3, 1), (3, 2), (2, 1), (2, 2), (2, 3), (1, 2), (1, 3), (0, 2), (-1, 1),
+      (1, 0), (1, 1), (0, 1), (0, 0)] : List Cell) ↔ FilledMeets unitGrid pentagon cell := by
+  obtain ⟨out, hout, hmem⟩ := filled_flood_exact_computable unitGrid (1/2, 1/4) _
+    (convex_parityConst pentagon (by decide +kernel)) popFirst popFirst_sound popFirst_total 21 (by decide +kernel)
+  have hval : flood nbrs8 (filledTouchesC unitGrid pentagon) popFirst 21 (cellOf unitGrid (1/2) (1/4))
+    = some [(2, 0), (3, 0), (3, 1), (3, 2), (2, 1), (2, 2), (2, 3), (1, 2), (1, 3), (0, 2), (-1, 1), (1, 0),
+        (1, 1), (0, 1), (0, 0)] := by decide +kernel
+  have : out = _ := Option.some.inj (hout.symm.trans hval)
+  rw [← this]
+  exact hmem
+
+/-- a geographic grid (origin (−180, −90), cells 45/8° × 45/16°) and a triangle -/
+example : StrictConvexCCW [(-3, 50), (11, 48), (5, 56)] ∧
+    (flood nbrs8 (filledTouchesC geoGrid [(-3, 50), (11, 48), (5, 56)]) popFirst 10 (cellOf geoGrid (-3) 50)).map
+      List.length = some 8 ∧ (ringBlock geoGrid [(-3, 50), (11, 48), (5, 56)]).length = 9 := by
+  refine ⟨by decide +kernel, by decide +kernel, by decide +kernel⟩
+
 end GV.FloodLat
